@@ -42,15 +42,20 @@ namespace {
     int v;
   };
 
-  constexpr int N_CONV = 3;
-  const char *conv_expr[N_CONV] = {"takes_base(make_derived())", "takes_b(make_a(5))", "takes_c(make_b(8))"};
-  const char *conv_expect[N_CONV] = {"=i:7", "=i:6", "=i:10"};
+  // conversions 3 and 4 connect types that may already take part in other conversions (the number of convertible
+  // TYPES does not change when they are registered) and are needed by calls that go through overload resolution:
+  // an overloaded C++ function and a script function with a typed parameter
+  constexpr int N_CONV = 5;
+  const char *conv_expr[N_CONV] = {"takes_base(make_derived())", "takes_b(make_a(5))", "takes_c(make_b(8))", "takes_a2(make_c(4))", "takes_c_typed(make_a(2))"};
+  const char *conv_expect[N_CONV] = {"=i:7", "=i:6", "=i:10", "=i:7", "=i:6"};
 
   Type_Conversion make_conv(int k) {
     switch (k) {
     case 0: return base_class<Base, Derived>();
     case 1: return type_conversion<ConvA, ConvB>([](const ConvA &a) { return ConvB{a.v + 1}; });
-    default: return type_conversion<ConvB, ConvC>([](const ConvB &b) { return ConvC{b.v + 2}; });
+    case 2: return type_conversion<ConvB, ConvC>([](const ConvB &b) { return ConvC{b.v + 2}; });
+    case 3: return type_conversion<ConvC, ConvA>([](const ConvC &c) { return ConvA{c.v + 3}; });
+    default: return type_conversion<ConvA, ConvC>([](const ConvA &a) { return ConvC{a.v + 4}; });
     }
   }
 
@@ -82,6 +87,8 @@ namespace {
     if (k == "mkglobnv" || k == "readnv") return "nv_" + n("j");
     if (k == "klass" || k == "knew") return "K_" + n("id");
     if (k == "addtype" || k == "readtype") return "ty_" + n("j");
+    if (k == "nsdef" || k == "nsread") return "ns_" + n("j");
+    if (k == "nsimport" || k == "nsvread") return "hns_" + n("j");
     return "";
   }
 
@@ -110,7 +117,7 @@ namespace {
         J op = J::object();
         const int a = int(plan.below(uint64_t(T)));
         op["a"] = J(a);
-        const int kind = int(plan.below(28));
+        const int kind = int(plan.below(31));
         switch (kind) {
         case 0:
           op["k"] = J("shared");
@@ -261,6 +268,18 @@ namespace {
           op["i"] = J(int(plan.below(2)));
           op["v"] = J(value_ctr++);
           break;
+        case 28:
+          // script-level namespace("ns_j"): registration + import in one call, contended name
+          op["k"] = J(plan.chance(500) ? "nsdef" : "nsread");
+          op["j"] = J(int(plan.below(uint64_t(n_contended))));
+          break;
+        case 29:
+        case 30:
+          // import("hns_j") of a namespace whose generator the host registered before the actors started: exactly one
+          // import may run the generator and publish the namespace, the others must be told it is already defined
+          op["k"] = J(plan.chance(600) ? "nsimport" : "nsvread");
+          op["j"] = J(int(plan.below(2)));
+          break;
         case 25:
           if (!on(8)) continue;
           op["k"] = J("usebad"); // use() of a file whose evaluation throws half-way
@@ -315,6 +334,32 @@ namespace {
         }
         ops = front;
       }
+      // directed scenario: several actors open with import() of the same host-registered namespace, then read it
+      if (plan.chance(150)) {
+        J front = J::array();
+        const int j = int(plan.below(2));
+        for (int a = 0; a < T && a < 3; ++a) {
+          J op = J::object();
+          op["a"] = J(a);
+          op["k"] = J("nsimport");
+          op["j"] = J(j);
+          front.push(op);
+        }
+        for (int a = 0; a < T && a < 3; ++a) {
+          J op = J::object();
+          op["a"] = J(a);
+          op["k"] = J("nsvread");
+          op["j"] = J(j);
+          front.push(op);
+        }
+        for (size_t i = 0; i < ops.size(); ++i) {
+          front.push(ops[i]);
+        }
+        ops = front;
+      }
+      // conversions in the reverse direction registered before the actors start: ConvA, ConvB and ConvC are then all
+      // "known" to the conversion system, and registering conversions 1-4 later adds no new type
+      p["known_types"] = J(plan.chance(500));
       // the engine may be created (and used a little) by a short-lived thread that has ended before the
       // actors start: actors may then run on recycled thread ids / thread control blocks
       p["creator"] = J(int(plan.below(3))); // 0 main, 1 temporary thread, 2 temporary thread that also declares x, y, z
@@ -382,6 +427,28 @@ namespace {
       chai->add(fun([](int v) { return ConvB{v}; }), "make_b");
       chai->add(fun([](const ConvB &b) { return b.v; }), "takes_b");
       chai->add(fun([](const ConvC &c) { return c.v; }), "takes_c");
+      chai->add(fun([](int v) { return ConvC{v}; }), "make_c");
+      chai->add(fun([](const ConvA &a) { return a.v; }), "takes_a2");
+      chai->add(fun([](const std::string &) { return -1; }), "takes_a2");
+      chai->add(user_type<ConvC>(), "ConvC");
+      chai->eval("def takes_c_typed(ConvC c) { return takes_c(c) }; def takes_c_typed(string s) { return -1 }");
+      if (plan.has("known_types") && plan.at("known_types").truthy()) {
+        chai->add(type_conversion<ConvC, ConvB>([](const ConvC &c) { return ConvB{c.v + 100}; }));
+        chai->add(type_conversion<ConvB, ConvA>([](const ConvB &b) { return ConvA{b.v + 100}; }));
+        r.counters["probe_conversion_types_known_in_advance"] += 1;
+      }
+      std::atomic<int> ns_generated[2] = {{0}, {0}};
+      for (int j = 0; j < 2; ++j) {
+        chai->register_namespace(
+            [j, &ns_generated](Namespace &space) {
+              ns_generated[j].fetch_add(1, std::memory_order_relaxed);
+              sim_yield(7, nullptr); // the generator is user code: other threads may run while it does
+              space["v"] = var(int(40 + j));
+              sim_yield(7, nullptr);
+              space["w"] = var(int(50 + j));
+            },
+            "hns_" + std::to_string(j));
+      }
       chai->eval("def shared_f(x) { var y = x * 2; var z = y + 1; t(z); return z }");
       chai->eval("def nv0() { 0 }; def nv1() { 0 }; def read_nv0() { return nv0 }; def read_nv1() { return nv1 }");
       const AST_NodePtr shared_tree = chai->parse("fun(a) { var y = a * 2; var z = y + 1; return z }(21)");
@@ -481,6 +548,14 @@ namespace {
               } catch (...) {
                 out = "!" + describe_current_exception(&e);
               }
+            } else if (k == "nsdef") {
+              out = eval_show(e, "namespace(\"ns_" + sn("j") + "\")");
+            } else if (k == "nsread") {
+              out = eval_show(e, "type_name(ns_" + sn("j") + ")");
+            } else if (k == "nsimport") {
+              out = eval_show(e, "import(\"hns_" + sn("j") + "\")");
+            } else if (k == "nsvread") {
+              out = eval_show(e, "hns_" + sn("j") + ".v + hns_" + sn("j") + ".w");
             } else if (k == "needconv") {
               out = eval_show(e, conv_expr[num("c") % N_CONV]);
             } else if (k == "ovdef") {
@@ -633,6 +708,7 @@ namespace {
       std::map<std::string, size_t> klass_def;
       std::map<std::string, int64_t> unique_global;
       int use_ops = 0, usebad_ops = 0;
+      int nsimport_ops[2] = {0, 0};
       for (size_t i = 0; i < ops.size(); ++i) {
         const J &op = ops[i];
         const int a = int(op.at("a").num());
@@ -711,6 +787,21 @@ namespace {
           if (out == "=void") add_op(LinOp::Add, 1, true);
           else if (out == "!conversion_error|") add_op(LinOp::Add, 1, false);
           else bad("add(conversion) outcome");
+        } else if (k == "nsdef" || k == "nsimport") {
+          if (k == "nsimport") ++nsimport_ops[op.at("j").num() % 2];
+          // exactly one definition / import succeeds; every other one is told so with the engine's own message
+          if (out == "=void") add_op(LinOp::Add, 1, true);
+          else if (out.find("runtime_error|Namespace: ") != std::string::npos && (out.find("was already registered") != std::string::npos || out.find("was already defined") != std::string::npos)) add_op(LinOp::Add, 1, false);
+          else bad("namespace definition / import outcome");
+        } else if (k == "nsread") {
+          if (out == "=s:Dynamic_Object") add_op(LinOp::Read, 1, true);
+          else if (not_found()) add_op(LinOp::Read, -1, true);
+          else bad("namespace read");
+        } else if (k == "nsvread") {
+          const int j = int(op.at("j").num() % 2);
+          if (out == "=i:" + std::to_string(90 + 2 * j)) add_op(LinOp::Read, 1, true);
+          else if (not_found()) add_op(LinOp::Read, -1, true);
+          else bad("members of an imported namespace");
         } else if (k == "needconv") {
           const int c = int(op.at("c").num() % N_CONV);
           if (out == conv_expect[c]) add_op(LinOp::Read, 1, true);
@@ -842,6 +933,14 @@ namespace {
       }
       if (use_ops > 1) {
         r.counters["probe_multiple_use_calls"] += 1;
+      }
+      if (nsimport_ops[0] > 1 || nsimport_ops[1] > 1) {
+        r.counters["probe_multiple_imports_of_one_namespace"] += 1;
+      }
+      for (int j = 0; j < 2; ++j) {
+        if (ns_generated[j].load() > 1) {
+          r.fail("namespace-generated-more-than-once", "the generator of namespace hns_" + std::to_string(j) + " ran " + std::to_string(ns_generated[j].load()) + " times (import must run it once per engine)");
+        }
       }
       if (bad_bumps.load() != 2 * usebad_ops) {
         r.fail("failed-use-recorded-as-used", "bad_use.chai throws half-way: " + std::to_string(usebad_ops) + " use() calls must each evaluate it up to the throw, counted "
